@@ -57,6 +57,16 @@ type Ctx struct {
 
 func (c *Ctx) add(o Obligation) { c.obls = append(c.obls, o); c.instances[o.Rule]++ }
 
+// Fork returns an empty context over the same program: a rule set of another property can be evaluated in it
+// and selected obligations re-emitted under this property's rule names.
+func (c *Ctx) Fork() *Ctx {
+	return &Ctx{Property: c.Property, Tier: c.Tier, Prog: c.Prog, Prog386: c.Prog386, Root: c.Root,
+		instances: map[string]int{}, minInst: map[string]int{}, counters: map[string]int{}}
+}
+
+// Emit re-emits an obligation (possibly renamed).
+func (c *Ctx) Emit(o Obligation) { c.add(o) }
+
 // OK records a discharged obligation.
 func (c *Ctx) OK(rule, key, pos, detail string) {
 	c.add(Obligation{Rule: rule, Key: key, Verdict: Discharged, Pos: pos, Detail: detail})
